@@ -313,6 +313,12 @@ def run(F, R, tier):
         R.ob("C13-b", "v1 leading comments are read as {text, range}", sorted(names) == ["range", "text"], "Comment keys are %s" % names, up["file"])
     keys = sorted({x["v"] for x in up["_nodes"] if x.get("k") == "Lit" and x.get("lk") == "str"})
     R.ob("C13-b", "v1 keys read by the upgrade", {"dependencies", "leadingComments", "typesSpecifier"} <= set(keys), "string keys in upgrade: %s" % keys, up["file"])
+    # every dependency of an old manifest is upgraded: nothing may leave the per-dependency loop early
+    fl_ = [n for n in up["_nodes"] if n["k"] == "For" and any(x.get("k") == "Lit" and x.get("v") == "leadingComments" for x in walk(n["body"]))]
+    if R.ob("C13-b", "per-dependency upgrade loop found", len(fl_) == 1, "shape changed", up["file"]):
+        early = [n for n in walk(fl_[0]["body"], into_closures=False) if n["k"] in ("Ret",) or (n["k"] == "Break" and n.get("target") == fl_[0].get("h"))]
+        R.ob("C13-b", "the upgrade visits every dependency (no early exit from the loop)", not early,
+             "`%s` inside the per-dependency loop of module_graph_1_to_2: dependencies after the first one without leading comments keep their v1 shape and lose their @deno-types information" % (expr_text(early[0]) if early else ""), where(early[0]) if early else "")
     mi = F.body("packages::JsrPackageVersionInfo::module_info")
     R.ob("C13-b", "moduleGraph1 manifests go through the upgrade", any(callee_matches(n, ["analysis::module_graph_1_to_2"]) for n in mi["_nodes"]), "module_info() no longer upgrades moduleGraph1 entries", mi["file"])
 
